@@ -54,7 +54,7 @@ def build():
     ex.ensures('extras_of_the_degree_once_each_and_never_the_challengers_own_config', f'ret@ == {SPEC}')
     if 'for xi_ in 0..self.extra_poseidon2_table_configs.len()' in ex.body:
         ex.loop('for xi_ in 0..self.extra_poseidon2_table_configs.len()', invariants=[
-            ('extras_so_far', 'configs@ == extras_for(self.extra_poseidon2_table_configs@, self.challenger_perm_config.p2, table_degree, xi_ as int) && challenger == self.challenger_perm_config.p2')])
+            ('extras_so_far', 'configs@ == extras_for(self.extra_poseidon2_table_configs@, self.challenger_perm_config.p2, table_degree, xi_ as int)' + (' && challenger == self.challenger_perm_config.p2' if re.search(r'let challenger\b', ex.body) else ''))])
     ac = u.extract(B, IMPL, 'poseidon2_air_configs_for_degree', 'FriRecursionBackend::poseidon2_air_configs_for_degree')
     ac.rewrite_re('R7', r'let mut configs = Vec::new\(\);', 'let mut configs: Vec<Poseidon2Config> = Vec::new();', min_count=0)
     ac.rewrite_re('R6', r'configs\.extend\((self\.extra_poseidon2_table_configs_for_degree\(\w+\))\);', r'let mut ex_ = \1; configs.append(&mut ex_);', min_count=0)
